@@ -1,2 +1,3 @@
 -- root of the library: everything `lake build` (and MANIFEST.setup_cmd) checks
 import GlmVerif.Props.C02
+import GlmVerif.Props.C10
